@@ -35,7 +35,7 @@ func buildSwitchActions(rs []*rec.Rec) ([]of.Action, error) {
 			}
 			switch r.K {
 			case "copy_ttl_out", "copy_ttl_in", "dec_mpls_ttl", "pop_pbb":
-				a = &of.ActionHeader{Type: t, Length: 8}
+				a = &of.ActionEmpty{ActionHeader: of.ActionHeader{Type: t, Length: 8}}
 			case "set_mpls_ttl":
 				a = &of.ActionMplsTtl{ActionHeader: of.ActionHeader{Type: t, Length: 8}, MplsTtl: r.U8("ttl")}
 			case "set_nw_ttl":
